@@ -180,3 +180,24 @@ package txpool
 //@ func (*TxGuard).SaveBlock   trusted
 //@   modifies gh("guarded", int(block.Header.Height))
 //@   ensures block != nil ==> gh("guarded", int(block.Header.Height)) == 1
+
+// C19: the replay cache is written by the consensus thread (SaveBlock, DelOldBlocks under the chain lock) and read by the miner
+// and by block verification; every access to its three indexes happens under TxGuard.RW (SaveBlock itself is an assumed contract,
+// see above: its body is not checked here).
+//@ guarded_by TxGuard.blockBuckets, TxGuard.blockCache, TxGuard.txTracer : TxGuard.RW
+//@ func (*TxGuard).ExistTx
+//@   props C19
+//@   requires guard != nil && !held(guard.RW) && !rheld(guard.RW)
+//@   ensures !held(guard.RW) && !rheld(guard.RW)
+//@ func (*TxGuard).ExistTxs
+//@   props C19
+//@   requires guard != nil && !held(guard.RW) && !rheld(guard.RW)
+//@   ensures !held(guard.RW) && !rheld(guard.RW)
+//@ func (*TxGuard).DelOldBlocks
+//@   props C19
+//@   requires guard != nil && !held(guard.RW) && !rheld(guard.RW) && wfTB(guard.blockBuckets)
+//@   ensures !held(guard.RW) && !rheld(guard.RW)
+//@ func (*TxGuard).GetTxsByBranch
+//@   props C19
+//@   requires guard != nil && !held(guard.RW) && !rheld(guard.RW)
+//@   ensures !held(guard.RW) && !rheld(guard.RW)
